@@ -32,7 +32,14 @@ def one_engine(repo, fname, what):
     if len(args) != 4:
         raise R.Unsupported("%s: build_rank takes %d arguments" % (what, len(args)))
     kind, rargs = m[0][1], [a.strip() for a in m[0][2].split(",")]
-    span = "let (begin, end) = matched_result?;" in src
+    DES = "let (begin, end) = matched_result?;"
+    span = DES in src
+    if span:
+        # nothing may rebind or assign `begin` / `end` / `score` between the destructuring and the call, or the names read below lie
+        seg = src[src.index(DES) + len(DES):src.index("rank: self.rank_builder.build_rank(")]
+        seg = seg.replace("let score = (end - begin) as i32;", "", 1)
+        if re.search(r"\b(begin|end|score)\b\s*(?:[-+*/]?=)(?!=)", seg) or re.search(r"let (?:mut )?\(?\s*(?:begin|end|score)\b", seg):
+            raise R.Unsupported("%s: `begin` / `end` / `score` is rebound between `matched_result?` and the call" % what)
 
     def key(a, which):
         """an argument in a key position, resolved by its own name (so that swapped arguments are READ as swapped)"""
@@ -54,6 +61,11 @@ def one_engine(repo, fname, what):
     elif args[0] == "score" and let_of(src, "score", what) == "(end - begin) as i32" and span:
         score = ".spanWidth"
     elif args[0] == "score as i32" and "let (score, matched_range) = matched_result.unwrap();" in src:
+        D2 = "let (score, matched_range) = matched_result.unwrap();"
+        seg = src[src.index(D2) + len(D2):src.index("rank: self.rank_builder.build_rank(")]
+        if re.search(r"\b(score|matched_range)\b\s*(?:[-+*/]?=)(?!=)", seg) or re.search(r"let (?:mut )?\(?\s*(?:score|matched_range)\b", seg) \
+                or re.search(r"matched_range\.(?!first\(\)|last\(\))\w+\(", seg):
+            raise R.Unsupported("%s: `score` / `matched_range` is rebound or modified between `matched_result.unwrap()` and the call" % what)
         score = ".matcher"
     else:
         raise R.Unsupported("%s: the score handed to build_rank is not understood: %s" % (what, args[0]))
